@@ -4,6 +4,9 @@ import (
 	"fmt"
 	"go/token"
 	"go/types"
+	"strings"
+
+	"golang.org/x/tools/go/ssa"
 
 	"lwverif/internal/absint"
 )
@@ -113,6 +116,11 @@ func checkC08(c *Ctx) {
 		}
 	}
 	r.Note("configurations: %d, of which %d have a non-empty decoder accept set", len(cfgs), accepted)
+	// "without it changing": the decoded frame keeps no reference into the received buffer (effects engine)
+	r.Rule("R4.noretain", "the frame decoders of the root package store nothing that reaches their input slice into the decoded frame: re-encoding gives the received bytes even after the receive buffer is reused")
+	noRetainObligations(c, effectsFor(c.Prog), "R4.noretain", func(f *ssa.Function) bool {
+		return f.Pkg != nil && f.Pkg == c.Prog.SSAPkg("") && strings.HasPrefix(f.Name(), "UnmarshalBinary")
+	})
 }
 
 // witnessBytes renders a satisfying assignment as a hex frame.
